@@ -59,6 +59,16 @@ def run(repo, chk):
     chk.decline("byte-exact prefix delivery, absence of gaps / repeats and eventual delivery as such (relations over runtime byte strings and schedules); R1-R4 are the structural necessary conditions")
     sites = r1(repo, chk)
     r1b(repo, chk, sites)
+    # ... and the ACK frame the receiver starts always fits (C12-R3 obligation, re-used: a receiver that can no longer
+    # acknowledge makes the sender probe for ever - nothing written after that point is delivered)
+    from . import c12 as _c12
+
+    class _Sub:
+        @staticmethod
+        def ob(rule, key, ok, msg="", loc="", detail=None):
+            chk.ob("R1b", key, ok, msg, loc, detail)
+
+    _c12._ack_frame_fits(repo, _Sub)
     r5(repo, chk)
     r2(repo, chk)
     r3(repo, chk)
